@@ -22,7 +22,10 @@ RULE = (
     "c <cmp> S in the scalar cells) for its operand kinds: sptensor-sptensor, sptensor-tensor, tensor-sptensor, "
     "sptensor-scalar.  Oracle = the same NumPy operator on the expanded arrays under errstate(ignore), exact "
     "NaN-aware comparison of the expansion of whatever is returned (sparse results must be well-formed: integer "
-    "in-range distinct subscripts, one value per subscript; explicitly stored zeros are accepted).  Non-trivial: "
+    "in-range distinct subscripts, one value per subscript; explicitly stored zeros are accepted; where an open "
+    "known finding is confined to one class of positions the values clause is split into that class and the rest).  "
+    "Every clause name carries the operator, the operand kinds and the input class (stored-entry counts 0/1/2+, "
+    "stored orders same/different, zero patterns same/different, ...), so each is judged separately.  Non-trivial: "
     "both operands have a zero and a nonzero and their zero patterns differ (scalar cells: the sparse operand has "
     "a zero and a nonzero)."
 )
